@@ -215,6 +215,8 @@ def f_open(p, mode="r", *a, **k):
     vp = virt(p)
     if vp is None or V is None:
         return REAL["open"](p, mode, *a, **k)
+    if vp in V.links and "x" not in mode:
+        vp = _resolve(vp)
     binary = "b" in mode
     if "w" in mode or "a" in mode or "x" in mode:
         if V.fail_write is not None and V.fail_write(vp):
@@ -278,6 +280,12 @@ def f_utime(p, times=None, *a, **k):
     vp = virt(p)
     if vp is None or V is None:
         return REAL["utime"](p, times, *a, **k)
+    if vp in V.links:
+        if k.get("follow_symlinks", True) is False:
+            if V.tick("utime", vp):
+                V.link_mtime[vp] = V.now() if times is None else times[1]      # the link's own time; the file it refers to is untouched
+            return None
+        vp = _resolve(vp)
     if vp not in V.files:
         if V.is_dir(vp):
             return None
@@ -290,6 +298,8 @@ def f_touch(self, mode=0o666, exist_ok=True):
     vp = virt(self)
     if vp is None or V is None:
         return REAL["touch"](self, mode, exist_ok)
+    if vp in V.links:
+        vp = _resolve(vp)             # open(..., O_CREAT) and utime follow a link (a dangling one gets its destination created)
     if vp in V.files:
         if not exist_ok:
             raise FileExistsError(17, "File exists (vfs)", vp)
